@@ -11,3 +11,4 @@ import RexModel.Props.C01
 #print axioms Rex.C01.C01_compiled_executor_refines_dataflow
 #print axioms Rex.C01.C01_accepted_instance_executor_refines
 #print axioms Rex.C01.C01_compiled_executor_agrees_with_any_valid_order
+#print axioms Rex.C01.C01_executor_order_valid
